@@ -17,7 +17,7 @@ from sx.runner import Harness
 from .util import Patch, StubAsyncio
 
 PROPERTY = "C04"
-MODULES = ["aiortc.rtcdtlstransport"]
+MODULES = ["aiortc.rtcdtlstransport", "aiortc.rtp"]
 DEADLINE = {"quick": 300, "thorough": 1500}
 ALGS = ["sha-256", "SHA-256", "Sha-384", "sha-512", "sha-1", "md5"]
 SUPPORTED = {"sha-256", "sha-384", "sha-512"}
@@ -521,6 +521,7 @@ HARNESSES = {
     "ssl-profiles": Harness("ssl-profiles", h_ssl_profiles, lambda tier: [{}], style="BMC over configurations", bounds="one certificate, two DTLS contexts with solver-chosen SRTP profile lists from 8 subsets/orders of the three profiles", encoded=["aiortc.rtcdtlstransport:RTCCertificate._create_ssl_context"], stubs=["OpenSSL.SSL.Context -> recorder"], outside=OUT, twin="contexts-created", opts={"samples": 1}),
     "srtp-window": Harness("srtp-window", h_srtp_window, lambda tier: [{"role": r, "pidx": p} for r in ("client", "server") for p in ((0,) if tier == "quick" else range(len(SRTP_PROFILES)))], style="STEP", bounds="newest sequence number symbolic (16 bit), a second packet 0..1023 behind it (also across the wrap); both roles, profile 0 (quick) / every profile", encoded=["aiortc.rtcdtlstransport:RTCDtlsTransport._setup_srtp", "aiortc.rtcdtlstransport:RTCDtlsTransport._send_rtp"], stubs=STUBS + ["pylibsrtp.Session -> model of libsrtp's sender-side replay window (too-old check against policy.window_size, default 128; repeats need allow_repeat_tx)"], outside=OUT, twin="late-packet-sent", opts={"samples": 1}),
     "demux": Harness("demux", h_demux, lambda tier: [{"connected": c} for c in (True, False)] + [{"connected": True, "n": n} for n in (0, 1)], style="STEP", bounds="one datagram, first two bytes symbolic (all 65536 values), transport with / without SRTP sessions; plus an empty and a one-byte datagram", encoded=["aiortc.rtcdtlstransport:RTCDtlsTransport._recv_next", "aiortc.rtp:is_rtcp"], stubs=["SRTP session -> identity recorder; DTLS engine -> recorder; RTP/RTCP handlers -> recorders"], outside=["SRTP authentication itself (libsrtp)"], twin="demuxed", opts={"samples": 1}),
+    "rtcp-delivery": Harness("rtcp-delivery", lambda ctx, **kw: __import__("harness.c12_router", fromlist=["h_rtcp_wire"]).h_rtcp_wire(ctx, **kw), lambda tier: [{"form": f} for f in ("rr-bye-reason", "unroutable-rr-then-nack", "sdes-then-bye")], style="STEP", bounds="one decrypted compound RTCP datagram in three forms (RR + BYE with reason text; RR about an unknown SSRC then NACK; SDES then BYE), one sender and two receivers with symbolic SSRCs: every packet of the datagram reaches the endpoints it reports on", encoded=["aiortc.rtcdtlstransport:RTCDtlsTransport._handle_rtcp_data", "aiortc.rtcdtlstransport:RtpRouter.route_rtcp", "aiortc.rtp:RtcpPacket.parse"], outside=OUT, twin="wire-dispatched", opts={"samples": 1}),
     "digest": Harness("digest", h_digest, lambda tier: [{"alg": a} for a in sorted(SUPPORTED)], style="REL", bounds="two stand-in certificates with symbolic 2-byte fingerprints (as 4 hex characters) and equal or different serial numbers, digests requested a, b, a", encoded=["aiortc.rtcdtlstransport:certificate_digest"], stubs=["cryptography x509.Certificate -> stand-in with serial_number / fingerprint()"], outside=["the hash computation itself (cryptography / OpenSSL)"], twin="digests", opts={"samples": 1}),
     "policy": Harness("policy", h_policy, _policy_jobs, style="STEP", bounds="fingerprint lists of 0..2 (quick) / 0..3 entries, algorithm from {sha-256, SHA-256, Sha-384, sha-512, sha-1, md5}, values 2 symbolic characters 0x30..0x7A (any case, equal or not to the digest), handshake ok/failed, 4 SRTP profile outcomes, DTLS role auto/client/server", encoded=ENC, stubs=STUBS, outside=OUT, twin="started", opts={"samples": 1}),
     "keys": Harness("keys", h_keys, lambda tier: [{"pidx": i} for i in range(len(SRTP_PROFILES))], style="RT", bounds="every available SRTP profile, both roles, fully symbolic keying material", encoded=ENC, stubs=STUBS, outside=OUT, twin="keys-derived"),
